@@ -44,8 +44,9 @@ L = {
          'heap-level separation of scope dictionaries from values pending.'),
  'C11': ('Theorems: history_indep_* for parse / list_names histories of any outcome, history_indep_eval, cache_transparent (C17) for cached parsers; D9 theorem. '
          'Correspondence: histories on one SqParser; monitors: fresh-parser repeat and pristine-interpreter (forked zygote) reference.', 'finding D9.'),
- 'C12': ('Theorems: deepcopy_frame, copy_reaches_only_new_objects, stored_copy_is_independent, all assignment forms store the copy. Correspondence: alias slice with '
-         'shared host objects; monitor: reachability disjointness.', 'deepcopy_iso pending.'),
+ 'C12': ('Theorems: deepcopy_frame, copy_reaches_only_new_objects, stored_copy_is_independent, stored_copy_has_same_content (deepcopy_iso: copy and original '
+         'unfold to the same tree at every depth; memo-walk invariant copy_spec), all assignment forms store the copy. Correspondence: alias slice with '
+         'shared host objects; monitor: reachability disjointness.', 'aliasing structure of the copy not a theorem of its own.'),
  'C13': ('Theorems: every one of the 35 non-mutating builtins preserves all existing objects; quiet_program_changes_no_host_object (over whole runs a program '
          'without mutators / compound assignments changes no pre-existing object other than scope dictionaries). Correspondence: builtin x argument matrix; snapshot monitor.',
          'programs with mutators: receiver-only effect pending.'),
